@@ -28,7 +28,10 @@ class DefaultSettings(MagicProperties):
 
     def reset(self):
         """Resets all nested properties to their hard coded default values"""
-        self.update(get_defaults_dict(), _match_properties=False)
+        # rebuild from the defaults dictionary, so that properties that are absent from it
+        # (and therefore have no hard coded value) are reset too
+        for key, val in get_defaults_dict().items():
+            setattr(self, key, val)
         return self
 
     @property
